@@ -114,6 +114,24 @@ fn cross_encoding(ctx: &mut Ctx, index: u64, text: &str) {
                         );
                     } else if cmp::full(&m) != f0 {
                         ctx.violation("encoding_changes_value", format!("{} decodes to a different Beatmap than UTF-8", enc.name()), index, &bytes);
+                    } else if index % 4 == 0 {
+                        // the encoding must also be recognised when the BOM arrives in pieces
+                        use rosu_map::DecodeBeatmap;
+                        for sizes in [vec![1usize, usize::MAX], vec![2, usize::MAX], vec![1, 1, usize::MAX]] {
+                            ctx.count("chunked_deliveries_checked");
+                            match Trace::decode(crate::obs::io::ChunkReader::new(&bytes, sizes.clone(), Vec::new())) {
+                                Ok(t) if t == t0 => {}
+                                other => {
+                                    ctx.violation(
+                                        "encoding_changes_trace",
+                                        format!("{} read through chunk sizes {sizes:?} decodes differently than UTF-8: {}", enc.name(), match other { Ok(t) => format!("version {} and {} lines vs {} and {}", t.version, t.calls.len(), t0.version, t0.calls.len()), Err(e) => format!("Err({e:?})") }),
+                                        index,
+                                        &bytes,
+                                    );
+                                    break;
+                                }
+                            }
+                        }
                     }
                 }
                 (a, b) => ctx.violation(
